@@ -141,6 +141,30 @@ func EvalForms(scope *slip.Scope, src string) Outcome {
 	})
 }
 
+// ReadForms reads src once; the objects can be evaluated several times with EvalObjects (the same code objects,
+// whose argument slots slip compiles in place during the first evaluation).
+func ReadForms(scope *slip.Scope, src string) (code slip.Code, o Outcome) {
+	o = Try(func() slip.Object {
+		code = slip.ReadString(src, scope)
+		return nil
+	})
+	return
+}
+
+// EvalObjects evaluates already read top-level forms one after another (see EvalForms).
+func EvalObjects(scope *slip.Scope, code slip.Code) Outcome {
+	return Try(func() (result slip.Object) {
+		for _, obj := range code {
+			if obj == nil {
+				result = nil
+				continue
+			}
+			result = obj.Eval(scope, 0)
+		}
+		return
+	})
+}
+
 // MustEval evaluates and panics on anything but a value (harness set-up).
 func MustEval(scope *slip.Scope, src string) slip.Object {
 	o := Eval(scope, src)
